@@ -250,6 +250,60 @@ def sink_is_file(run, b, t, R):
     run.check(good, R, "sink-is-the-file", "the library writes into the File itself", "the library's sink is `%s`, not the created file itself: writes are deferred by the adaptor, so a write failure is no longer "
               "reported by finish() (it surfaces later or is dropped) and the command can report completion for an incomplete file" % sym.show(x)[:100], mir.loc_of(t))
 
+
+CODEC_NAMES = {
+    "<api::VideoCodec as std::str::FromStr>::from_str": {"h264": "H264", "h.264": "H264", "avc": "H264", "h265": "H265", "h.265": "H265", "hevc": "H265", "av1": "Av1", "vp9": "Vp9"},
+    "<api::AudioCodec as std::str::FromStr>::from_str": {"aac": "Aac(Lc)", "aac-lc": "Aac(Lc)", "aac-main": "Aac(Main)", "aac-ssr": "Aac(Ssr)", "aac-ltp": "Aac(Ltp)", "aac-he": "Aac(He)",
+                                                         "aac-hev2": "Aac(Hev2)", "opus": "Opus", "none": "None"},
+}
+
+
+def codec_names_rule(prog, run, R="R8"):
+    """the codec names and aliases the CLI documents (`--video-codec`, `--audio-codec` go through FromStr) are all accepted, case-insensitively,
+    and name the right codec: `from_str` is a match of the whole lower-cased argument (through trim / as_str only) against a table that
+    contains every documented alias with its codec"""
+    from .. import layout as L
+    u = prog.lib
+    it = L.Interp(u)
+
+    def ctor_name(v):
+        while v[0] in ("okres", "unwrapped", "okval"):
+            v = v[1]
+        if v == ("none",):
+            return "None"
+        if v[0] == "ctor":
+            inner = ",".join(ctor_name(a) for a in v[2])
+            return v[1].split("::")[-1] + ("(%s)" % inner if inner else "")
+        return L.show(v)[:40]
+    n = 0
+    for fn_, table in sorted(CODEC_NAMES.items()):
+        short = fn_.split(" as ")[0].split("::")[-1]
+        if fn_ not in u.hir:
+            run.bad(R, "anchor %s::from_str" % short, "FromStr implementation not found")
+            continue
+        try:
+            v = it.call_value(fn_, [("param", "s")])
+        except L.Unanalysable as e:
+            run.bad(R, "%s names" % short, "cannot derive the name table (fail closed): %s" % e)
+            continue
+        scr = v[1] if v[0] == "matchv" else None
+        x, lowered = scr, False
+        while x is not None and x[0] == "mcall" and x[1].split("::")[-1] in ("to_lowercase", "to_ascii_lowercase", "as_str", "trim", "to_string", "to_owned", "deref"):
+            lowered = lowered or "lowercase" in x[1]
+            x = x[2]
+        whole = v[0] == "matchv" and x == ("param", "s") and lowered
+        run.check(whole, R, "%s names: whole lower-cased argument" % short, "match on s.to_lowercase()",
+                  "from_str does not match the whole lower-cased argument (scrutinee %s): names containing the cut or altered part (`h.264`) are no longer recognised" % (L.show(scr)[:100] if scr else L.show(v)[:100]))
+        got = {}
+        if v[0] == "matchv":
+            for pat, val in v[2]:
+                for alt in str(pat).split("|"):
+                    got.setdefault(alt.strip(), ctor_name(val))
+        for name, want in sorted(table.items()):
+            n += 1
+            run.check(got.get(name) == want, R, "%s name `%s`" % (short, name), "-> %s" % want, "the documented name `%s` is %s, documented: %s" % (name, ("mapped to " + got[name]) if name in got else "not accepted", want))
+    run.floor(R, n, 15, "documented codec names")
+
 def check(prog, run):
     run.rule("R1", "the output File flows only into the library builder; no other filesystem write in the mux command")
     run.rule("R2", "builder/muxer arguments are sourced from the matching CLI option (documented defaults); single frame at t=0, key=true")
@@ -302,6 +356,8 @@ def check(prog, run):
     # ---- R6: input decoding is loud
     run.rule("R6", "input decoding fails loudly: on the mux path no Result is discarded through .ok()/unwrap_or*/err() (a malformed input must stop the command)")
     loud_rule(run, u, g, mux)
+    run.rule("R8", "codec names and aliases: every documented name is accepted case-insensitively and names the right codec (FromStr tables)")
+    codec_names_rule(prog, run)
     run.rule("R7", "reported frame counts: every `count += 1` on the mux path is unconditional in its function, and each successful library frame write is followed by exactly one of them (video and audio distinct)")
     counters_rule(run, u, g, mux)
     # ---- R2
